@@ -377,6 +377,60 @@ impl Scenario for C16Includes {
             return Err(cx.fail("T2", "directives-not-preserved", format!("{contributing} include directives of the main file contributed elements but the written file has none")));
         }
 
+        // ---- T2b: the same after an edit that reorders the output (new element + sort_new_items, or sort):
+        // the directives must still be written so that the reload from the same directory gives the edited model
+        // (only where the MODULE itself lives in the main file: new content of a block that is written as an
+        // /include directive cannot be written by design, the library never writes include files)
+        let module_in_main = model.project.get_layout().incfile.is_none() && model.project.module.iter().all(|m| m.get_layout().incfile.is_none());
+        if cx.tape.chance(1, 2) && !model.project.module.is_empty() && module_in_main {
+            let mut edited = guarded(cx, "no-panic", "clone", || model.clone())?;
+            // (a full sort() is not used here: it also reorders unnamed lists such as module-level IF_DATA, whose
+            // order after a reload through includes is C14's subject, not C16's)
+            let how = cx.tape.draw(2);
+            let desc = guarded(cx, "no-panic", "edit before write", || {
+                if how == 2 {
+                    edited.sort();
+                    "sort()".to_string()
+                } else {
+                    let mi = 0;
+                    let n = 1 + how as usize;
+                    for k in 0..n {
+                        let name = format!("{}_new_{k}", ["aaa", "mmm", "zzz"][k % 3]);
+                        edited.project.module[mi].measurement.push(a2lfile::Measurement::new(name, String::new(), a2lfile::DataType::Ubyte, "NO_COMPU_METHOD".to_string(), 0, 0.0, 0.0, 255.0));
+                    }
+                    edited.sort_new_items();
+                    format!("push {n} MEASUREMENT + sort_new_items()")
+                }
+            })?;
+            fs.begin_op(BTreeMap::new(), false);
+            match sut::write_path(cx, "T2", &edited, "/work/main_edited.a2l", None)? {
+                Ok(()) => {}
+                Err(e) => return Err(cx.fail("T2", "write-failed", format!("{e}"))),
+            }
+            let (reloaded, _, _, _) = load_main(cx, &fs, "T2", "/work/main_edited.a2l", strict, BTreeMap::new(), false)?;
+            match reloaded {
+                Ok((mut m2, _)) => {
+                    let mut want = edited.clone();
+                    crate::c01::canonicalize_lists(&mut want);
+                    crate::c01::canonicalize_lists(&mut m2);
+                    for f in [&mut want, &mut m2] {
+                        for m in &mut f.project.module {
+                            m.user_rights.sort_by(|a, b| a.user_level_id.cmp(&b.user_level_id));
+                        }
+                    }
+                    let eq = guarded(cx, "no-panic", "model comparison", || m2 == want)?;
+                    if !eq {
+                        let written2 = String::from_utf8_lossy(&fs.get("/work/main_edited.a2l").unwrap_or_default()).to_string();
+                        cx.event_lazy("written main file after the edit", || crate::runner::clip(&written2, 2500));
+                        return Err(cx.fail("T2", "reloaded-model-differs-after-edit", format!("after {desc}: loading the written main file gives a different model (up to list order): {}", crate::c01::model_diff(&want, &m2))));
+                    }
+                    cx.probe("write-after-reordering-edit");
+                }
+                Err(e) => return Err(cx.fail("T2", "reload-failed-after-edit", format!("after {desc}: {e}"))),
+            }
+            fs.remove("/work/main_edited.a2l");
+        }
+
         // ---- T3: merge_includes makes the output self-contained and equal
         let mm = merged(cx, &model)?;
         let mtext = sut::write_str(cx, "T3", &mm)?;
